@@ -1017,6 +1017,8 @@ def store_cols(it, f, names, value, node, mask=None):
             f.space = vs
     elif kv_ is not None and not f.row:
         check_labels(it, "store", f, value, node)
+    if vs is not None and f.space is None and not f.row and mask is None:
+        f.space = vs  # a freshly allocated table (np.zeros((n, k))): a full column stored into it fixes which rows it holds
     if vs is not None and f.space is not None and not vs.same(f.space) and not f.row:
         masked_same = (mask is not None and vs.how == "filter" and vs.parent is not None and vs.parent.same(f.space)
                        and vs.key == to_term(mask).key())  # df.loc[m, c] = f(df.loc[m, c]): the value lives in exactly the stored rows
